@@ -56,15 +56,17 @@ fn build_archive(path: &Path, key: &str, seed: u64) -> Vec<String> {
         let name = format!("Dir{:02}\\{}_{:04}.dat", i % 13, key.to_lowercase(), i);
         let long = key == "L" && i % 97 == 5;
         let len = if long { 9000 + rng.below(12000) as usize } else if i % 31 == 7 { 0 } else { 16 + rng.below(400) as usize };
-        // multi-sector members are compressible text (so that every sector is stored compressed)
-        let data = if long { gen_content("text", len, &mut rng) } else { gen_content(if i % 3 == 0 { "random" } else { "text" }, len, &mut rng) };
+        // multi-sector members: text stored compressed, and (every second one) random bytes stored RAW in several
+        // sectors (readable since the builder sets the COMPRESS flag on every sectored file, fix 9cf2783)
+        let raw_long = long && (i / 97) % 2 == 0;
+        let data = if long { gen_content(if raw_long { "random" } else { "text" }, len, &mut rng) } else { gen_content(if i % 3 == 0 { "random" } else { "text" }, len, &mut rng) };
         let comp: u8 = match i % 4 {
             0 => 0x02,
             1 => 0x10,
             2 => 0,
             _ => 0x02,
         };
-        let comp = if long { 0x02 } else { comp };
+        let comp = if raw_long { 0 } else if long { 0x02 } else { comp };
         let encrypt = key == "E" || (key == "L" && i % 50 == 3);
         b = b.add_file_data_with_options(data, &name, comp, encrypt, 0);
         names.push(name);
@@ -186,6 +188,33 @@ fn name_id(w: &WorldX, key: &str, s: &str) -> i64 {
     w.ids.get(&(key.to_string(), s.to_string())).map(|&x| x as i64).unwrap_or(if s.starts_with("missing\\") { 0 } else { -1 })
 }
 
+/// one slot per chain entry in chain order (named by the archive's own file, read through the chain), then one
+/// slot for the winner of the name every archive shares
+fn chain_slots(w: &WorldX, chain: &mut wow_mpq::PatchChain, tokid: &dyn Fn(&[u8]) -> u32) -> (Vec<i64>, Vec<u32>) {
+    let mut names = Vec::new();
+    let mut toks = Vec::new();
+    for info in chain.get_chain_info() {
+        let k = w.multi.iter().position(|(p, _)| *p == info.path);
+        match k {
+            Some(k) => {
+                let f = format!("unique_{k}.txt");
+                names.push(w.ids.get(&(format!("M{k}"), f.clone())).map(|&x| x as i64).unwrap_or(-1));
+                toks.push(chain.read_file(&f).map(|d| tokid(&d)).unwrap_or(0));
+            }
+            None => {
+                names.push(-1);
+                toks.push(0);
+            }
+        }
+    }
+    if let Some(p) = chain.find_file_archive("common.txt").map(|p| p.to_path_buf()) {
+        let id = w.multi.iter().find(|(q, _)| *q == p).and_then(|(_, id)| *id).map(|x| x as i64).unwrap_or(-1);
+        names.push(id);
+        toks.push(chain.read_file("common.txt").map(|d| tokid(&d)).unwrap_or(0));
+    }
+    (names, toks)
+}
+
 fn run_once(w: &WorldX, c: &Value, names: &[String], intern: &std::sync::Mutex<Interner>) -> Obs {
     let iface = gs(c, "iface").to_string();
     let key = gs(c, "arch").to_string();
@@ -230,6 +259,26 @@ fn run_once(w: &WorldX, c: &Value, names: &[String], intern: &std::sync::Mutex<I
                     Ok((r.iter().map(|(p, _)| back(p)).collect(),
                         r.iter().map(|(_, fs)| if fs.len() == 1 && fs[0].0 == "common.txt" { tokid(&fs[0].1) } else { 0 }).collect()))
                 }
+            }
+            "chain_par" | "chain_addpar" => {
+                // names = "<path>|<priority>" in argument order
+                let list: Vec<(PathBuf, i32)> = names
+                    .iter()
+                    .map(|s| {
+                        let (p, pr) = s.rsplit_once('|').unwrap();
+                        (PathBuf::from(p), pr.parse().unwrap())
+                    })
+                    .collect();
+                let mut chain = in_pool(t, || {
+                    if iface == "chain_par" {
+                        wow_mpq::PatchChain::from_archives_parallel(list.clone())
+                    } else {
+                        let mut c = wow_mpq::PatchChain::new();
+                        c.add_archives_parallel(list.clone()).map(|_| c)
+                    }
+                })
+                .map_err(|e| variant_name(&e))?;
+                Ok(chain_slots(w, &mut chain, &tokid))
             }
             other => tool_error(&format!("unknown interface {other}")),
         }
@@ -315,6 +364,40 @@ fn main() {
                     }
                     (sel.iter().map(|&i| w.multi[i].0.to_string_lossy().to_string()).collect(),
                      sel.iter().map(|&i| w.multi[i].1.unwrap_or(0)).collect())
+                }
+                "chain_par" | "chain_addpar" => {
+                    // argument list: n of the M archives in seeded order, priorities by pattern b
+                    // (0 all equal, 1 ascending, 2 descending, 3 two alternating levels, 4 with a negative and a tie);
+                    // miss = "middle": one path does not exist. The expected slots come from the SEQUENTIAL
+                    // construction (add_archive one by one), the reference of C09 for this interface.
+                    let n = gi(c, "n") as usize;
+                    let mut order: Vec<usize> = (0..6).collect();
+                    for i in (1..6).rev() {
+                        order.swap(i, rng.below(i as u64 + 1) as usize);
+                    }
+                    let pat = gi(c, "b");
+                    let prio = |i: usize| -> i32 {
+                        match pat {
+                            0 => 7,
+                            1 => i as i32,
+                            2 => 10 - i as i32,
+                            3 => (i % 2) as i32 * 5,
+                            _ => [-1, 0, 0, 5, -1, 5][i % 6],
+                        }
+                    };
+                    let mut list: Vec<(PathBuf, i32)> = order.iter().take(n).enumerate().map(|(i, &k)| (w.multi[k].0.clone(), prio(i))).collect();
+                    if gs(c, "miss") == "middle" && n > 0 {
+                        list[n / 2].0 = scratch.path.join("no-such-archive.mpq");
+                    }
+                    let mut seq = wow_mpq::PatchChain::new();
+                    let ok = list.iter().all(|(p, pr)| seq.add_archive(p, *pr).is_ok());
+                    let ids: Vec<usize> = if ok {
+                        let tk = |_: &[u8]| 0u32;
+                        chain_slots(&w, &mut seq, &tk).0.iter().map(|&x| x.max(0) as usize).collect()
+                    } else {
+                        vec![0]
+                    };
+                    (list.iter().map(|(p, pr)| format!("{}|{}", p.to_string_lossy(), pr)).collect(), ids)
                 }
                 "matching" => {
                     // the request is a predicate: file index (listfile order) mod n == b; the expected
